@@ -1,6 +1,7 @@
 package main
 
 import (
+	"sync"
 	"crypto/sha1"
 	"encoding/json"
 	"fmt"
@@ -52,39 +53,113 @@ func replayViolation(prop string, v sym.Violation) (string, bool, string) {
 	}
 }
 
+// replayBinary builds the native replay test binary once per process.
+var (
+	replayBinOnce sync.Once
+	replayBinPath string
+	replayBinErr  string
+	replayBinDir  string
+)
+
+func replayBinary() (string, string) {
+	replayBinOnce.Do(func() {
+		ovDir, err := os.MkdirTemp("", "symgo-ov")
+		if err != nil {
+			replayBinErr = err.Error()
+			return
+		}
+		replayBinDir = ovDir
+		repl := map[string]string{}
+		add := func(realDir, virtDir string) {
+			ents, _ := os.ReadDir(realDir)
+			for _, e := range ents {
+				if strings.HasSuffix(e.Name(), ".go") {
+					repl[filepath.Join(virtDir, e.Name())] = filepath.Join(realDir, e.Name())
+				}
+			}
+		}
+		add(filepath.Join(verifDir, "harness/zz_verif"), filepath.Join(repoDir, "pkg/zz_verif"))
+		add(filepath.Join(verifDir, "engine/vrt"), filepath.Join(repoDir, "pkg/vrt"))
+		for virt, real := range inPkgOverlay() {
+			repl[virt] = real
+		}
+		ovb, _ := json.Marshal(map[string]interface{}{"Replace": repl})
+		ovPath := filepath.Join(ovDir, "overlay.json")
+		os.WriteFile(ovPath, ovb, 0644)
+		bin := filepath.Join(ovDir, "replay.test")
+		build := exec.Command("go", "test", "-c", "-tags", "verif", "-vet=off", "-overlay", ovPath, "-o", bin, "./pkg/zz_verif")
+		build.Dir = repoDir
+		build.Env = goEnv()
+		if bout, err := build.CombinedOutput(); err != nil {
+			replayBinErr = "replay build failed: " + string(bout)
+			return
+		}
+		replayBinPath = bin
+	})
+	return replayBinPath, replayBinErr
+}
+
+func cleanupReplayBinary() {
+	if replayBinDir != "" {
+		os.RemoveAll(replayBinDir)
+	}
+}
+
+func runNative(harness, modelPath string) string {
+	bin, errs := replayBinary()
+	if bin == "" {
+		return errs
+	}
+	cmd := exec.Command(bin, "-test.run", "^TestVerifReplay$", "-test.v")
+	cmd.Dir = filepath.Dir(bin)
+	cmd.Env = append(os.Environ(), "VERIF_REPLAY="+modelPath, "VERIF_HARNESS="+harness)
+	out, _ := cmd.CombinedOutput()
+	return string(out)
+}
+
+// validateSamples replays sampled assertion-clean paths natively: the real build must not fail any
+// assertion nor panic, and concrete observations must agree. Returns (validated, mismatches).
+func validateSamples(res *sym.HarnessResult) (int, []string) {
+	var mism []string
+	n := 0
+	dir, err := os.MkdirTemp("", "symgo-val")
+	if err != nil {
+		return 0, []string{err.Error()}
+	}
+	defer os.RemoveAll(dir)
+	for i, vs := range res.Validation {
+		model := map[string]interface{}{"harness": res.Name, "inputs": vs.Model}
+		b, _ := json.Marshal(model)
+		mp := filepath.Join(dir, fmt.Sprintf("m%d.json", i))
+		os.WriteFile(mp, b, 0644)
+		out := runNative(res.Name, mp)
+		if !strings.Contains(out, "VRT-DONE") {
+			mism = append(mism, fmt.Sprintf("%s path %v: native run did not complete: %s", res.Name, vs.Decisions, clip(out, 300)))
+			continue
+		}
+		if strings.Contains(out, "VRT-ASSERT-FAILED") || strings.Contains(out, "VRT-PANIC") || strings.Contains(out, "VRT-ASSUME-FAILED") {
+			mism = append(mism, fmt.Sprintf("%s path %v: encoder says the path is assertion-clean, the real build disagrees: %s", res.Name, vs.Decisions, clip(out, 400)))
+			continue
+		}
+		ok := true
+		for label, want := range vs.Obs {
+			if !strings.Contains(out, "VRT-LOG observe "+label+" = "+want+"\n") && !strings.Contains(out, "VRT-LOG observe "+label+" = "+want) {
+				mism = append(mism, fmt.Sprintf("%s path %v: observation %s differs natively (engine %q)", res.Name, vs.Decisions, label, clip(want, 120)))
+				ok = false
+			}
+		}
+		if ok {
+			n++
+		}
+	}
+	return n, mism
+}
+
 // nativeReplay runs the harness natively with the model; ok iff assertion `label` failed natively
 // (or a Go panic occurred for label no-panic).
 func nativeReplay(harness, label, modelPath string) (bool, string) {
-	ovDir, err := os.MkdirTemp("", "symgo-ov")
-	if err != nil {
-		return false, err.Error()
-	}
-	defer os.RemoveAll(ovDir)
-	repl := map[string]string{}
-	add := func(realDir, virtDir string) {
-		ents, _ := os.ReadDir(realDir)
-		for _, e := range ents {
-			if strings.HasSuffix(e.Name(), ".go") {
-				repl[filepath.Join(virtDir, e.Name())] = filepath.Join(realDir, e.Name())
-			}
-		}
-	}
-	add(filepath.Join(verifDir, "harness/zz_verif"), filepath.Join(repoDir, "pkg/zz_verif"))
-	add(filepath.Join(verifDir, "engine/vrt"), filepath.Join(repoDir, "pkg/vrt"))
-	ovb, _ := json.Marshal(map[string]interface{}{"Replace": repl})
-	ovPath := filepath.Join(ovDir, "overlay.json")
-	os.WriteFile(ovPath, ovb, 0644)
-	bin := filepath.Join(ovDir, "replay.test")
-	build := exec.Command("go", "test", "-c", "-tags", "verif", "-vet=off", "-overlay", ovPath, "-o", bin, "./pkg/zz_verif")
-	build.Dir = repoDir
-	build.Env = append(os.Environ(), "GOFLAGS=-mod=mod", "GOPROXY=off", "GOSUMDB=off", "GOTOOLCHAIN=local")
-	if bout, err := build.CombinedOutput(); err != nil {
-		return false, "replay build failed: " + string(bout)
-	}
-	cmd := exec.Command(bin, "-test.run", "^TestVerifReplay$", "-test.v")
-	cmd.Dir = ovDir
-	cmd.Env = append(os.Environ(), "VERIF_REPLAY="+modelPath, "VERIF_HARNESS="+harness)
-	out, _ := cmd.CombinedOutput()
+	s0 := runNative(harness, modelPath)
+	out := []byte(s0)
 	s := string(out)
 	if label == "no-panic" {
 		return strings.Contains(s, "VRT-PANIC"), s
